@@ -59,6 +59,17 @@ def gen_problem(rng, tier):
     if rng.random() < 0.05:
         nrooms = h * w                         # single-cell regions: never solvable
     nrooms = min(nrooms, h * w)
+    return _gen(rng, h, w, nrooms)
+
+
+def extra_program_problems(rng):
+    """Larger boards for the program correspondence only (nothing is enumerated there): one non-square medium board and two
+    with more than 256 cells (a tall and a wide one), rooms of 3 to 8 cells on average."""
+    from . import _loop
+    return [_gen(rng, h, w, rng.randint(h * w // 8, h * w // 3)) for h, w in _loop.big_shapes(rng)]
+
+
+def _gen(rng, h, w, nrooms):
     rooms = _partition(rng, h, w, nrooms, connected=rng.random() < 0.8)
     for room in rooms:
         if rng.random() < 0.5:
